@@ -35,7 +35,7 @@ TECHNIQUE = ('explicit-state BFS over all StopWatch call sequences x clock '
 
 OPS = ['start', 'stop', 'elapsed', 'split', 'resume', 'restart', 'expired',
        'leftover', 'leftover_none', 'elapsed_max1', 'has_started',
-       'has_stopped', 'enter', 'exit', 'elapsed_max0', 'splits']
+       'has_stopped', 'enter', 'exit', 'elapsed_max0', 'splits', 'exit_exc']
 STEPS = [0, 1, 5, -3]
 ACTIONS = [(s, o) for s in STEPS for o in OPS]
 
@@ -95,7 +95,7 @@ class RefWatch:
         if op == 'stop':
             self._stop(now)
             return 'self'
-        if op == 'exit':
+        if op in ('exit', 'exit_exc'):
             try:
                 self._stop(now)
             except RuntimeError:
@@ -181,6 +181,12 @@ def _impl_apply(w, op):
         r = w.__enter__()
     elif op == 'exit':
         return w.__exit__(None, None, None)
+    elif op == 'exit_exc':
+        # leaving the block because its body raised: the watch is stopped all the same and
+        # the exception is not suppressed (a false result)
+        e = ValueError('body failed')
+        r = w.__exit__(ValueError, e, None)
+        return None if not r else ('suppresses', repr(r))
     elif op == 'splits':
         return ('splits',) + tuple((s.elapsed, s.length) for s in w.splits)
     else:
@@ -351,7 +357,7 @@ def _canon(node):
 
 FRAC_STEPS = [0, 0.1, 0.2, 0.7]
 FRAC_ACTIONS = [(s, o) for s in FRAC_STEPS for o in OPS if o not in ('has_started', 'has_stopped', 'enter',
-                                                                    'exit', 'elapsed_max0')]
+                                                                    'exit', 'elapsed_max0', 'exit_exc')]
 
 
 def _explore(job):
